@@ -96,7 +96,7 @@ ColOK(t, k) == \A j \in (LineStart(t, k) + 1)..k : t[j] # "X"
 (* position demanded by the statement at boundary k: <<byte offset, line, column, column defined>> *)
 PosAt(t, k) == <<Off(t, k), Line(t, k), Col8(t, k), IF ColOK(t, k) THEN 1 ELSE 0>>
 
-(* per unit: <<name, start boundary, token length in characters, starts>>; starts = 1 iff a token
+(* per unit: <<name, start boundary, token length in characters, starts, comment, error>>; starts = 1 iff a token
    or comment must start exactly at the unit's start (token-like and not fused with an
    identifier-like predecessor).  The token part of the unit covers boundaries k .. k + toklen:
    its exclusive end is bnd[k + toklen], its last character starts at bnd[k + toklen - 1]. *)
